@@ -225,6 +225,20 @@ CHECKS = {
         technique='symbolic execution of MIR with the hash iteration order as symbolic environment + SMT (z3), MIR call-site scan, multi-process replay',
         design='§4 C20',
     ),
+    'C12': dict(
+        engine='M', category='other',
+        text='Bounded check of the two string kernels: (a) escape::gen_lit_str, the writer of every string literal of the generated JavaScript, executed '
+             'from MIR on strings of <= 2 (thorough: 3) symbolic Unicode scalar values - every code point with every neighbour; a reference decoder of '
+             'ECMAScript double-quoted literals (restricted to what every engine and strict mode accept: no legacy octal, no \\u{..}, no raw line terminator) '
+             'is evaluated over the symbolic output and z3 decides well-formedness and value == input for all inputs; (b) Expression::parse_lit_str on '
+             'literals of <= 8 symbolic characters against the escape table of template string literals (invalid \\x/\\u must be diagnosed). '
+             'Entity decoding, longer strings and composition over whole templates are outside.',
+        note='Trusted: MIR text; String/Chars/push_str/Range/char::from_u32 contracts; ParseState cursor contracts (assume-guarantee with K16a); the two reference '
+             'decoders in checks/c12.py. Digit-table lemmas are proved before they are used. If gen_lit_str cannot be executed by M the check only probes critical '
+             'strings end to end (violation if one differs, otherwise inconclusive).',
+        technique='symbolic execution of MIR + SMT (z3) against reference decoders over symbolic characters; end-to-end replay in node',
+        design='§4 C12',
+    ),
 }
 
 NOT_APPLICABLE = {
